@@ -31,12 +31,12 @@ def run(run):
     out = run.out
     # ---- R2 |= R1 (and, as a vacuity self-test, the pre-repair closure must violate FunctionOK in the model)
     p = os.path.join(out, "MC.cfg")
-    pcfg(p, 7, 2, 4 if quick else 5, 2, 3 if quick else 4)
+    pcfg(p, 8, 2, 4 if quick else 5, 2, 3 if quick else 4)
     r = run.tlc("mc_projstate", SPEC, "ProjState", p, workers=8, timeout=3000,
                 extra=["-coverage", "1"] if not quick else None)
     run.coverage_zeros(r)
     p = os.path.join(out, "MCbug.cfg")
-    pcfg(p, 7, 2, 4, 2, 3, mutates=True)
+    pcfg(p, 8, 2, 4, 2, 3, mutates=True)
     r = run.tlc("mc_projstate_prerepair", SPEC, "ProjState", p, workers=8, timeout=3000, expect_violation=True, count=False)
     if not r["violated"]:
         raise vlib.MachineryError("vacuity self-test failed: the model of the pre-repair closure does not violate FunctionOK/CaptureStable")
@@ -44,7 +44,7 @@ def run(run):
     # ---- histories: exhaustive short ones + simulated long ones
     hist = []
     p = os.path.join(out, "GenH.cfg")
-    pcfg(p, 7, 2, 4, 2, 2 if quick else 3, gen=True)   # (MaxTF 3, MaxCalls 3) was measured at > 54 M histories: never finishes
+    pcfg(p, 8, 2, 4, 2, 2 if quick else 3, gen=True)   # (MaxTF 3, MaxCalls 3) was measured at > 54 M histories: never finishes
     hp = os.path.join(out, "hist_bfs.ndjson")
     run.gen("gen_hist_bfs", SPEC, "ProjStateGen", p, hp, workers=4, timeout=3000)
     hist += vlib.read_ndjson(hp)
@@ -53,7 +53,7 @@ def run(run):
         hist = hist[:: len(hist) // cap + 1]
     p = os.path.join(out, "SimH.cfg")
     depth = 25 if quick else 40
-    pcfg(p, 7, 3, 7, 6, depth, gen=True, emitlen=depth)
+    pcfg(p, 8, 3, 7, 6, depth, gen=True, emitlen=depth)
     hp = os.path.join(out, "hist_sim.ndjson")
     run.gen("sim_hist", SPEC, "ProjStateGen", p, hp, workers=1, timeout=3000,
             simulate="num=%d" % (150 if quick else 3000), depth=depth)
@@ -79,7 +79,7 @@ def run(run):
     run.bounds = {"histories": len(hist), "transform_cases": len(tcases), "random_histories": nrand, "geom": k}
     tcfg = os.path.join(out, "Trace.cfg")
     with open(tcfg, "w") as f:
-        f.write("SPECIFICATION TraceSpec\nINVARIANT TReport\nCHECK_DEADLOCK FALSE\nCONSTANTS\n" + CONSTS % (7, 3) +
+        f.write("SPECIFICATION TraceSpec\nINVARIANT TReport\nCHECK_DEADLOCK FALSE\nCONSTANTS\n" + CONSTS % (8, 3) +
                 "  MaxSR = 0\n  MaxTF = 0\n  MaxCalls = 0\n  MutatesCapture = FALSE\n")
     ntriv = set()
     for name, tr, exp in (("trace_replay", tr1, len(allcases)), ("trace_random", tr2, nrand)):
@@ -132,7 +132,7 @@ def replay(run, path):
     run.drive(["c10", "replay", cpath, tr])
     tcfg = os.path.join(run.out, "Trace.cfg")
     with open(tcfg, "w") as f:
-        f.write("SPECIFICATION TraceSpec\nINVARIANT TReport\nCHECK_DEADLOCK FALSE\nCONSTANTS\n" + CONSTS % (7, 3) +
+        f.write("SPECIFICATION TraceSpec\nINVARIANT TReport\nCHECK_DEADLOCK FALSE\nCONSTANTS\n" + CONSTS % (8, 3) +
                 "  MaxSR = 0\n  MaxTF = 0\n  MaxCalls = 0\n  MutatesCapture = FALSE\n")
     fails, lines = run.validate("trace_replay", SPEC, "ProjStateTrace", tcfg, tr, expected_cases=1)
     for fl in fails:
